@@ -103,8 +103,10 @@ MemoOwn == \A c \in Live : DOMAIN memo[c] \subseteq evals[c]
 
 \* the keys on the stack are distinct, started, and not yet memoised
 StackSane == \A c \in Live :
-    /\ \A i, j \in 1..Len(stack[c]) : i # j => stack[c][i] # stack[c][j]
-    /\ \A i \in 1..Len(stack[c]) : stack[c][i] \in evals[c] /\ stack[c][i] \notin DOMAIN memo[c]
+    LET onstack == {stack[c][i] : i \in 1..Len(stack[c])} IN
+    /\ Cardinality(onstack) = Len(stack[c])
+    /\ onstack \subseteq evals[c]
+    /\ onstack \cap DOMAIN memo[c] = {}
 
 \* every started body is either still on the stack or memoised: nothing is evaluated and lost
 NothingLost == \A c \in Live : evals[c] = DOMAIN memo[c] \cup {stack[c][i] : i \in 1..Len(stack[c])}
